@@ -27,7 +27,10 @@ ASSUMPTIONS = ['HEADER_TABLE_SIZE stays 4096: the server sets the same non-defau
 TIERS = {'quick': {'cases': 3000, 'size': 700},
          'thorough': {'cases': 100000, 'size': 1500}}
 VALUES = {1: [4096], 2: [0, 1], 3: [0, 1, 100, 2 ** 32 - 1], 4: [0, 1, 65535, 65536, 2 ** 20],
-          5: [16384, 16385, 65536, 2 ** 24 - 1], 6: [8192, 65536, 2 ** 32 - 1], 8: [0, 1]}
+          5: [16384, 16385, 65536, 2 ** 24 - 1], 6: [8192, 65536, 2 ** 32 - 1], 8: [0, 1],
+          # extension settings h2 has no name for are handed over like the others (RFC 7540 s6.5.2: unknown
+          # identifiers are carried and ignored, not dropped from the peer's view)
+          9: [0, 1], 200: [0, 7, 2 ** 32 - 1]}
 DEFAULTS = {1: 4096, 2: 1, 3: 100, 4: 65535, 5: 16384, 6: 65536, 8: 0}
 REQ = [(':method', 'GET'), (':scheme', 'http'), (':authority', 'example.com'), (':path', '/')]
 
@@ -128,7 +131,7 @@ def run_case(data):
     r = Result()
     vals = {}
     for k in sorted(VALUES):
-        if ch.chance(150):
+        if ch.chance(150 if k < 9 else 60):
             vals[k] = ch.pick(VALUES[k])
     p = UpgPair(r, ID, vals)
     p.max_data = 16000
@@ -166,7 +169,7 @@ def run_case(data):
         bad = P.twin_check(p, lambda: UpgRaw(vals))
         if bad:
             r.violate('%s:%s' % (ID, bad[0]), bad[1])
-    nondefault = sum(1 for k, v in vals.items() if DEFAULTS[k] != v)
+    nondefault = sum(1 for k, v in vals.items() if DEFAULTS.get(k) != v)
     st1 = p.m['s'].get(1)
     answered = st1 is not None and st1.s_final
     new_c = any(sid > 1 and sid % 2 for sid in p.m['c'].streams)
